@@ -270,6 +270,10 @@ def check_C07(tier, seed, t0):
              enum_part('C07', 'swap2_pairs_size_le_capacity', [u for u in c13_units() if u.name.endswith(('_int', '_tm'))], seed, tier,
                        'the C13 grid of swap2 between every ordered pair of vector flavours (int and a type with non-noexcept moves), here only for the '
                        'clause size() <= capacity() after the call, whether it returned or threw', crash_is_violation=False, shards=4)]
+    fsn = [n for n, _ in C.FS_CONFIGS if 'fcv24' not in n]
+    parts.append(interp_part('C07', 'flatset_histories', fs_jobs(fsn, cases, maxlen), seed,
+                             'FlatSet tapes: steal_vector() moves out of the set\'s vector - when that vector is heap-backed its buffer is handed over (same data(), no element copied); '
+                             'non-trivial = C03 rule', False))
     parts += fuzz_parts('C07', tier, seed, ('vec',), False)
     return finish('C07', tier, seed, 'exploration', parts, VEC_RULES['C07'], ASSUME_COMMON, t0)
 
